@@ -248,7 +248,7 @@ func runC05(c map[string]interface{}) []Event {
 			var serr error
 			o := safely(func() { sg, serr = wkb.Read(v.mk()) })
 			if o != "ok" {
-				e[v.k] = map[string]interface{}{"t": o, "m": []interface{}{}}
+				e[v.k] = map[string]interface{}{"t": "panic", "m": []interface{}{}, "msg": o}
 			} else if serr != nil || sg == nil {
 				e[v.k] = map[string]interface{}{"t": "err", "m": []interface{}{}}
 			} else {
@@ -266,7 +266,7 @@ func runC05(c map[string]interface{}) []Event {
 			var herr error
 			o := safely(func() { hg, herr = hex.Decode(v.s) })
 			if o != "ok" {
-				e[v.k] = map[string]interface{}{"t": o, "m": []interface{}{}}
+				e[v.k] = map[string]interface{}{"t": "panic", "m": []interface{}{}, "msg": o}
 			} else if herr != nil || hg == nil {
 				e[v.k] = map[string]interface{}{"t": "err", "m": []interface{}{}}
 			} else {
